@@ -82,3 +82,7 @@ M("c12-close-clears-buffer", "C12", MEM, "MemoryObjectReceiveStream.close", "   
 # from seeded change C12/e (round 3)
 M("c12-receive-closed-check-after-wake", "C12", MEM, "MemoryObjectReceiveStream.receive",
   "            try:\n                return receiver.item\n            except AttributeError:", "            if self._closed:\n                raise ClosedResourceError\n\n            try:\n                return receiver.item\n            except AttributeError:", ["R12-f"])
+
+# from seeded changes C12/g, C12/h (round 4)
+M("c12-pending-cancellation-asks-about-the-caller", "C12", A, "AsyncIOTaskInfo.has_pending_cancellation", "        if task_state := _task_states.get(task):", "        if task_state := _task_states.get(current_task()):", ["R12-h"])
+M("c12-effectively-cancelled-honours-only-own-shield", "C12", A, "CancelScope._effectively_cancelled", "            if cancel_scope.shield:", "            if self.shield:", ["R12-j"])
